@@ -282,7 +282,7 @@ def build_matcharm(spec: dict, sections: dict, log: list, twin: bool = False, su
     src = read_repo(relfile)
     it = rsx.find_item(relfile, src, 'fn', spec['fn'], in_impl=spec.get('in_impl'), in_mod=spec.get('in_mod'))
     toks = it.toks
-    def find_arm(text, lo, hi):
+    def find_arm(text, lo, hi, nth=1):
         first = [t.text for t in rsx.tokenize(text)]
         exact = first[-1] == '=>'           # `PATTERN =>`: the whole pattern is given (e.g. `_ =>`)
         if exact:
@@ -297,7 +297,9 @@ def build_matcharm(spec: dict, sections: dict, log: list, twin: bool = False, su
                         k = rsx.match_close(toks, k)
                     k += 1
                 if k < hi and toks[k + 1].text == '{':
-                    return (j, k + 1, rsx.match_close(toks, k + 1))
+                    nth -= 1
+                    if nth == 0:
+                        return (j, k + 1, rsx.match_close(toks, k + 1))
         return None
     lo, hi = it.open_tok, it.close_tok
     if spec.get('within'):
@@ -306,7 +308,7 @@ def build_matcharm(spec: dict, sections: dict, log: list, twin: bool = False, su
         if outer is None:
             raise LostAnchor(f"{relfile}: fn {spec['fn']}: enclosing match arm starting with `{spec['within']}` not found")
         lo, hi = outer[1], outer[2]
-    hit = find_arm(spec['first'], lo, hi)
+    hit = find_arm(spec['first'], lo, hi, int(spec.get('nth', '1')))   # nth=N: the N-th arm with that pattern
     if hit is None:
         raise LostAnchor(f"{relfile}: fn {spec['fn']}: match arm starting with `{spec['first']}` with a block body not found")
     j, o, c = hit
